@@ -370,48 +370,107 @@ Proof.
   - intros (s & Hs & Hsp & Hm). exists s. split; [right; exact Hs|auto].
 Qed.
 
+(* ---- the order on offers: higher priority first, then the name that sorts first ---- *)
+Lemma str_leb_refl a : str_leb a a = true.
+Proof. induction a as [|x a IH]; cbn; [reflexivity|]. rewrite N.ltb_irrefl, N.eqb_refl. exact IH. Qed.
+Lemma str_leb_total a : forall b, str_leb a b = true \/ str_leb b a = true.
+Proof.
+  induction a as [|x a IH]; intros [|y b]; cbn; auto.
+  destruct (N.ltb_spec x y); [auto|]. destruct (N.ltb_spec y x); [auto|].
+  assert (x = y) by lia. subst y. rewrite N.eqb_refl. apply IH.
+Qed.
+Lemma str_leb_antisym a : forall b, str_leb a b = true -> str_leb b a = true -> a = b.
+Proof.
+  induction a as [|x a IH]; intros [|y b]; cbn; try congruence.
+  destruct (N.ltb_spec x y) as [L|L]; destruct (N.ltb_spec y x) as [L'|L']; try lia.
+  - destruct (N.eqb_spec y x); [lia|discriminate].
+  - destruct (N.eqb_spec x y); [lia|discriminate].
+  - destruct (N.eqb_spec x y) as [->|]; [|discriminate]. rewrite N.eqb_refl.
+    intros H1 H2. f_equal. apply IH; assumption.
+Qed.
+Lemma str_leb_trans a : forall b c, str_leb a b = true -> str_leb b c = true -> str_leb a c = true.
+Proof.
+  induction a as [|x a IH]; intros [|y b] [|z c]; cbn; try congruence.
+  destruct (N.ltb_spec x y) as [L|L].
+  - intros _. destruct (N.ltb_spec y z) as [M|M].
+    + intros _. destruct (N.ltb_spec x z); [reflexivity|lia].
+    + destruct (N.eqb_spec y z) as [->|]; [|discriminate]. intros _.
+      destruct (N.ltb_spec x z); [reflexivity|lia].
+  - destruct (N.eqb_spec x y) as [->|]; [|discriminate]. intros H1.
+    destruct (N.ltb_spec y z) as [M|M]; [reflexivity|].
+    destruct (N.eqb_spec y z) as [->|]; [|discriminate]. apply IH. exact H1.
+Qed.
+
+(* [a] is at least as good an offer as [b] *)
+Definition good (a b : str * Z) : Prop :=
+  (snd b < snd a)%Z \/ (snd b = snd a /\ str_leb (fst a) (fst b) = true).
+Lemma good_refl a : good a a.
+Proof. right. split; [reflexivity|apply str_leb_refl]. Qed.
+Lemma good_trans a b c : good a b -> good b c -> good a c.
+Proof.
+  unfold good. intros [H1|[H1 L1]] [H2|[H2 L2]]; try (left; lia).
+  right. split; [lia|]. eapply str_leb_trans; eauto.
+Qed.
+Lemma good_antisym a b : good a b -> good b a -> a = b.
+Proof.
+  unfold good. intros [H1|[H1 L1]] [H2|[H2 L2]]; try lia.
+  destruct a as [an ap], b as [bn bp]. cbn in *. subst. f_equal. apply str_leb_antisym; assumption.
+Qed.
+(* the replacement test of the loop: the new offer is strictly better than the current one *)
+Lemma replace_test rp cur :
+  (snd rp >? snd cur)%Z || ((snd rp =? snd cur)%Z && str_ltb (fst rp) (fst cur)) = true -> good rp cur /\ rp <> cur.
+Proof.
+  unfold good, str_ltb. intros H. apply orb_true_iff in H as [H|H].
+  - split; [left; lia|]. intros ->. lia.
+  - apply andb_true_iff in H as [H1 H2]. apply negb_true_iff in H2. split.
+    + right. split; [lia|]. destruct (str_leb_total (fst rp) (fst cur)) as [T|T]; [exact T|congruence].
+    + intros ->. rewrite str_leb_refl in H2. discriminate.
+Qed.
+Lemma keep_test rp cur :
+  (snd rp >? snd cur)%Z || ((snd rp =? snd cur)%Z && str_ltb (fst rp) (fst cur)) = false -> good cur rp.
+Proof.
+  unfold good, str_ltb. intros H. apply orb_false_iff in H as [H1 H2].
+  destruct (Z.eqb_spec (snd rp) (snd cur)) as [E|E].
+  - cbn in H2. apply negb_false_iff in H2. right. split; [exact E|exact H2].
+  - left. lia.
+Qed.
+
 Lemma pick_loop_spec E fs : forall cur,
   match pick_loop E fs cur with
   | None => cur = None /\ forall name p, ~ cand_in E fs name p
-  | Some (n, p) =>
-      (cur = Some (n, p) \/ cand_in E fs n p) /\
-      (forall n' p', cand_in E fs n' p' -> (p' <= p)%Z) /\
-      (forall n0 p0, cur = Some (n0, p0) -> (p0 <= p)%Z)
+  | Some best =>
+      (cur = Some best \/ cand_in E fs (fst best) (snd best)) /\
+      (forall n' p', cand_in E fs n' p' -> good best (n', p')) /\
+      (forall c, cur = Some c -> good best c)
   end.
 Proof.
   induction fs as [|f r IH]; intros cur; cbn [pick_loop].
-  - destruct cur as [[n p]|].
+  - destruct cur as [c|].
     + split; [left; reflexivity|]. split.
       * intros n' p' (s & [] & _).
-      * intros n0 p0 H. inversion H; subst. lia.
+      * intros c0 H. inversion H; subst. apply good_refl.
     + split; [reflexivity|]. intros name p (s & [] & _).
-  - destruct (rr_exception f) eqn:Ex.
-    { specialize (IH cur). pose proof (cand_in_cons_skip E f r) as Sk.
-      destruct (pick_loop E r cur) as [[n p]|].
+  - assert (Skip : (rr_exception f = true \/ rr_option f = None \/
+                    exists s, rr_option f = Some s /\ mem_str (fst (split_redirect_priority s)) E = true) ->
+                   match pick_loop E r cur with
+                   | None => cur = None /\ forall name p, ~ cand_in E (f :: r) name p
+                   | Some best =>
+                       (cur = Some best \/ cand_in E (f :: r) (fst best) (snd best)) /\
+                       (forall n' p', cand_in E (f :: r) n' p' -> good best (n', p')) /\
+                       (forall c, cur = Some c -> good best c)
+                   end).
+    { intros Hs. specialize (IH cur). pose proof (cand_in_cons_skip E f r) as Sk.
+      destruct (pick_loop E r cur) as [best|].
       - destruct IH as (A & B & C). split; [|split].
         + destruct A as [A|A]; [left; exact A|right; apply Sk; auto].
         + intros n' p' H. apply (B n' p'). apply Sk in H; auto.
         + exact C.
       - destruct IH as (A & B). split; [exact A|]. intros name p H. apply (B name p). apply Sk in H; auto. }
-    destruct (rr_option f) as [s|] eqn:Op.
-    2:{ specialize (IH cur). pose proof (cand_in_cons_skip E f r) as Sk.
-      destruct (pick_loop E r cur) as [[n p]|].
-      - destruct IH as (A & B & C). split; [|split].
-        + destruct A as [A|A]; [left; exact A|right; apply Sk; auto].
-        + intros n' p' H. apply (B n' p'). apply Sk in H; auto.
-        + exact C.
-      - destruct IH as (A & B). split; [exact A|]. intros name p H. apply (B name p). apply Sk in H; auto. }
+    destruct (rr_exception f) eqn:Ex; [apply Skip; auto|].
+    destruct (rr_option f) as [s|] eqn:Op; [|apply Skip; auto].
     destruct (mem_str (fst (split_redirect_priority s)) E) eqn:Mem.
-    { specialize (IH cur). pose proof (cand_in_cons_skip E f r) as Sk.
-      assert (Hsk : rr_exception f = true \/ rr_option f = None \/
-                    exists s0, rr_option f = Some s0 /\ mem_str (fst (split_redirect_priority s0)) E = true)
-        by (right; right; exists s; auto).
-      destruct (pick_loop E r cur) as [[n p]|].
-      - destruct IH as (A & B & C). split; [|split].
-        + destruct A as [A|A]; [left; exact A|right; apply Sk; auto].
-        + intros n' p' H. apply (B n' p'). apply Sk in H; auto.
-        + exact C.
-      - destruct IH as (A & B). split; [exact A|]. intros name p H. apply (B name p). apply Sk in H; auto. }
+    { apply Skip. right. right. exists s. auto. }
+    clear Skip.
     (* f is a candidate *)
     pose proof (rr_eta f false (Some s) Ex Op) as Hf.
     destruct (split_redirect_priority s) as [fn fp] eqn:Sp. cbn [fst snd] in *.
@@ -424,24 +483,27 @@ Proof.
     assert (Hweak : forall n' p', cand_in E r n' p' -> cand_in E (f :: r) n' p').
     { intros n' p' (s' & Hs & Hsp & Hm). exists s'. split; [right; exact Hs|auto]. }
     destruct cur as [[cn cp]|].
-    + destruct (fp >? cp)%Z eqn:Gt.
-      * specialize (IH (Some (fn, fp))). destruct (pick_loop E r (Some (fn, fp))) as [[n p]|].
+    + destruct ((fp >? cp)%Z || ((fp =? cp)%Z && str_ltb fn cn)) eqn:Gt.
+      * destruct (replace_test (fn, fp) (cn, cp) Gt) as [Gd _].
+        specialize (IH (Some (fn, fp))). destruct (pick_loop E r (Some (fn, fp))) as [best|].
         -- destruct IH as (A & B & C). split; [|split].
            ++ right. destruct A as [A|A]; [inversion A; subst; exact Hcand|apply Hweak; exact A].
-           ++ intros n' p' H. destruct (Hsplit _ _ H) as [[-> ->]|H']; [apply (C fn fp); reflexivity|apply (B n' p'); exact H'].
-           ++ intros n0 p0 H. inversion H; subst. specialize (C fn fp eq_refl). lia.
+           ++ intros n' p' H. destruct (Hsplit _ _ H) as [[-> ->]|H']; [apply (C (fn, fp)); reflexivity|apply (B n' p'); exact H'].
+           ++ intros c H. inversion H; subst. eapply good_trans; [apply (C (fn, fp)); reflexivity|exact Gd].
         -- destruct IH as (A & _). discriminate.
-      * specialize (IH (Some (cn, cp))). destruct (pick_loop E r (Some (cn, cp))) as [[n p]|].
+      * pose proof (keep_test (fn, fp) (cn, cp) Gt) as Gd.
+        specialize (IH (Some (cn, cp))). destruct (pick_loop E r (Some (cn, cp))) as [best|].
         -- destruct IH as (A & B & C). split; [|split].
            ++ destruct A as [A|A]; [left; exact A|right; apply Hweak; exact A].
-           ++ intros n' p' H. destruct (Hsplit _ _ H) as [[-> ->]|H']; [specialize (C cn cp eq_refl); lia|apply (B n' p'); exact H'].
+           ++ intros n' p' H. destruct (Hsplit _ _ H) as [[-> ->]|H'];
+                [eapply good_trans; [apply (C (cn, cp)); reflexivity|exact Gd]|apply (B n' p'); exact H'].
            ++ exact C.
         -- destruct IH as (A & _). discriminate.
-    + specialize (IH (Some (fn, fp))). destruct (pick_loop E r (Some (fn, fp))) as [[n p]|].
+    + specialize (IH (Some (fn, fp))). destruct (pick_loop E r (Some (fn, fp))) as [best|].
       * destruct IH as (A & B & C). split; [|split].
         -- right. destruct A as [A|A]; [inversion A; subst; exact Hcand|apply Hweak; exact A].
-        -- intros n' p' H. destruct (Hsplit _ _ H) as [[-> ->]|H']; [apply (C fn fp); reflexivity|apply (B n' p'); exact H'].
-        -- intros n0 p0 H. discriminate.
+        -- intros n' p' H. destruct (Hsplit _ _ H) as [[-> ->]|H']; [apply (C (fn, fp)); reflexivity|apply (B n' p'); exact H'].
+        -- intros c H. discriminate.
       * destruct IH as (A & _). discriminate.
 Qed.
 
@@ -465,7 +527,26 @@ Proof.
   destruct (pick_loop (exception_names m) m None) as [[n p]|]; [|discriminate].
   intros E. inversion E; subst n. destruct H as (A & B & _). exists p. split.
   - destruct A as [A|A]; [discriminate|]. apply cand_in_candidate. exact A.
-  - intros n' p' H. apply (B n' p'). apply cand_in_candidate. exact H.
+  - intros n' p' H. assert (G : good (name, p) (n', p')) by (apply (B n' p'); apply cand_in_candidate; exact H).
+    destruct G as [G|[G _]]; cbn in G; lia.
+Qed.
+
+(* the choice in full: the best offer under "higher priority, then the name that sorts first" *)
+Theorem pick_redirect_best m name :
+  pick_redirect m = Some name <->
+  exists p, candidate m name p /\ forall n' p', candidate m n' p' -> good (name, p) (n', p').
+Proof.
+  unfold pick_redirect. pose proof (pick_loop_spec (exception_names m) m None) as H.
+  destruct (pick_loop (exception_names m) m None) as [[n p]|].
+  - destruct H as (A & B & _). destruct A as [A|A]; [discriminate|]. cbn [fst snd] in A. split.
+    + intros E. inversion E; subst n. exists p. split; [apply cand_in_candidate; exact A|].
+      intros n' p' Hc. apply (B n' p'). apply cand_in_candidate. exact Hc.
+    + intros (q & Hc & Hbest). f_equal.
+      assert (G1 : good (n, p) (name, q)) by (apply (B name q); apply cand_in_candidate; exact Hc).
+      assert (G2 : good (name, q) (n, p)) by (apply Hbest; apply cand_in_candidate; exact A).
+      pose proof (good_antisym _ _ G1 G2) as Eq. inversion Eq. reflexivity.
+  - destruct H as (_ & B). split; [discriminate|]. intros (q & Hc & _). exfalso.
+    apply (B name q). apply cand_in_candidate. exact Hc.
 Qed.
 
 (* no redirect name iff every offered resource is excepted (or nothing is offered) *)
@@ -491,6 +572,29 @@ Proof.
     destruct (Hu _ _ Hq) as [->|Hlt]; [reflexivity|]. specialize (Hmax _ _ Hc). lia.
   - exfalso. apply (proj1 (pick_redirect_none m) E name p). exact Hc.
 Qed.
+
+(* hence the choice depends only on the SET of matching redirect rules, not on their order or
+   multiplicity *)
+Theorem pick_redirect_set_only m1 m2 :
+  (forall r, In r m1 <-> In r m2) -> pick_redirect m1 = pick_redirect m2.
+Proof.
+  intros Hs.
+  assert (Hc : forall name p, candidate m1 name p <-> candidate m2 name p).
+  { intros name p. unfold candidate, offered, excepted. split.
+    - intros [(s & I & Sp) Ne]. split; [exists s; split; [apply Hs; exact I|exact Sp]|].
+      intros (s' & I' & Sp'). apply Ne. exists s'. split; [apply Hs; exact I'|exact Sp'].
+    - intros [(s & I & Sp) Ne]. split; [exists s; split; [apply Hs; exact I|exact Sp]|].
+      intros (s' & I' & Sp'). apply Ne. exists s'. split; [apply Hs; exact I'|exact Sp']. }
+  destruct (pick_redirect m1) as [n1|] eqn:E1.
+  - symmetry. apply pick_redirect_best. apply pick_redirect_best in E1 as (p & C & Bst).
+    exists p. split; [apply Hc; exact C|]. intros n' p' C'. apply Bst. apply Hc. exact C'.
+  - destruct (pick_redirect m2) as [n2|] eqn:E2; [|reflexivity]. exfalso.
+    apply pick_redirect_best in E2 as (p & C & _).
+    assert (N : pick_redirect m1 <> None).
+    { intros N. apply (proj1 (pick_redirect_none m1) N n2 p). apply Hc. exact C. }
+    congruence.
+Qed.
+
 
 Example ex_pick :
   pick_redirect [ mk_rr false (Some (bs "a.js:5")); mk_rr false (Some (bs "noop.js:10"));
